@@ -105,7 +105,13 @@ def exec_op(op, dbmap, state, on_failure=None):
                   "isotherm": pgsql.isotherm_property_types_from_db, "isotype": pgsql.isotherm_types_from_db}[op["table"]]
             value = [dg.canon(d) for d in fn(db_path=db, verbose=False)]
         elif o == "isotherm_to_db":
-            iso = build.make_isotherm(op["iso"])
+            if op.get("reuse_edit") and state.get("last_iso") is not None:
+                # the caller edits the isotherm object it uploaded last - in place - and uploads that same object again
+                iso = state["last_iso"]
+                iso.properties.update(op["reuse_edit"])
+            else:
+                iso = build.make_isotherm(op["iso"])
+            state["last_iso"] = iso
             reply["uploaded"] = content_isotherm(iso)
             kw = dict(db_path=db, verbose=False, autoinsert_material=op.get("autoinsert_material", True),
                       autoinsert_adsorbate=op.get("autoinsert_adsorbate", True))
